@@ -750,6 +750,115 @@ def r18_9(ctx, counts) -> RuleResult:
     return res
 
 
+def r18_10(ctx, counts) -> RuleResult:
+    """the occurrence ladder of the subtype test accepts only sub-occurrences"""
+    model: Model = ctx.model
+    res = RuleResult(
+        'R18.10', 'OCCURRENCE-SUBTYPE-SOUND',
+        'is_sequence_type_restriction(st1, st2) ("st2 is a subtype of st1") first compares the '
+        'occurrence indicators in an if-ladder on st1[-1] / st2[-1] that returns False or strips '
+        'the indicators. The ladder is interpreted on the 16 pairs of indicators '
+        "('', ?, +, *) x ('', ?, +, *): a pair that is not rejected must be a sub-occurrence "
+        "pair (one <= ? <= *, one <= + <= *). Accepting ('', '?') made "
+        '`function() as xs:integer? {()} instance of function() as xs:integer` true. (The ladder '
+        'may reject more than necessary: the rows the test-suite pins are incomplete, not '
+        'unsound.)')
+    mod = model.module('elementpath.sequence_types')
+    f = mod.toplevel_function('is_sequence_type_restriction')
+    if f is None:
+        raise AnalysisError('sequence_types.is_sequence_type_restriction vanished')
+    p1, p2 = f.params()[:2]
+
+    def last_index(e: ast.AST) -> Optional[str]:
+        if isinstance(e, ast.Subscript) and isinstance(e.value, ast.Name) \
+                and e.value.id in (p1, p2) and stmt_text(e.slice) == '-1':
+            return e.value.id
+        return None
+    ladder = [st for st in f.node.body if isinstance(st, ast.If) and any(
+        last_index(y) for y in ast.walk(st.test))]
+    if not ladder:
+        raise AnalysisError('is_sequence_type_restriction: occurrence ladder not located')
+
+    class _Ret(Exception):
+        def __init__(self, v):
+            self.v = v
+
+    def ev(e: ast.AST, env: dict[str, str]):
+        if isinstance(e, ast.Constant):
+            return e.value
+        if isinstance(e, ast.Tuple):
+            return tuple(ev(x, env) for x in e.elts)
+        if isinstance(e, ast.Name) and e.id in env:
+            return env[e.id]
+        if isinstance(e, ast.Subscript) and isinstance(e.value, ast.Name) and e.value.id in env:
+            txt = stmt_text(e.slice)
+            v = env[e.value.id]
+            if txt == '-1':
+                return v[-1]
+            if txt == ':-1':
+                return v[:-1]
+        if isinstance(e, ast.UnaryOp) and isinstance(e.op, ast.Not):
+            return not ev(e.operand, env)
+        if isinstance(e, ast.BoolOp):
+            vals = [ev(v, env) for v in e.values]
+            return all(vals) if isinstance(e.op, ast.And) else any(vals)
+        if isinstance(e, ast.Compare) and len(e.ops) == 1:
+            a, b = ev(e.left, env), ev(e.comparators[0], env)
+            op = e.ops[0]
+            if isinstance(op, ast.In):
+                return a in b
+            if isinstance(op, ast.NotIn):
+                return a not in b
+            if isinstance(op, ast.Eq):
+                return a == b
+            if isinstance(op, ast.NotEq):
+                return a != b
+        if isinstance(e, ast.Call) and isinstance(e.func, ast.Attribute) \
+                and e.func.attr == 'endswith' and len(e.args) == 1:
+            return ev(e.func.value, env).endswith(ev(e.args[0], env))
+        raise AnalysisError(f'occurrence ladder: `{stmt_text(e)[:50]}` not interpreted')
+
+    def run(stmts, env):
+        for st in stmts:
+            if isinstance(st, ast.If):
+                run(st.body if ev(st.test, env) else st.orelse, env)
+            elif isinstance(st, ast.Assign) and len(st.targets) == 1 \
+                    and isinstance(st.targets[0], ast.Name):
+                env[st.targets[0].id] = ev(st.value, env)
+            elif isinstance(st, ast.Return):
+                raise _Ret(ev(st.value, env))
+            elif isinstance(st, ast.Pass):
+                pass
+            else:
+                raise AnalysisError(f'occurrence ladder: statement `{stmt_text(st)[:50]}` not '
+                                    f'interpreted')
+    allowed = {'': {''}, '?': {'', '?'}, '+': {'', '+'}, '*': {'', '?', '+', '*'}}
+    n = 0
+    for o1 in ('', '?', '+', '*'):
+        for o2 in ('', '?', '+', '*'):
+            n += 1
+            env = {p1: 'xs:T' + o1, p2: 'xs:T' + o2}
+            try:
+                run(ladder, env)
+                out = None
+            except _Ret as r:
+                out = r.v
+            accepted = out is True or (out is None and env[p1] == env[p2])
+            sound = (not accepted) or o2 in allowed[o1]
+            res.instances.append(f"T{o1 or '(one)'} :> T{o2 or '(one)'}: "
+                                 f"{'accepted' if accepted else 'rejected'}; sound: {sound}")
+            if sound:
+                res.ok()
+            else:
+                res.fail(finding('R18.10', f, ladder[0], f'occurrence {o1!r} accepts {o2!r}',
+                                 f'the occurrence ladder lets `T{o2}` pass as a subtype of '
+                                 f'`T{o1}` (the indicator of the second type is stripped or '
+                                 f'ignored): a function returning T{o2} is judged an instance of '
+                                 f'a function type returning T{o1}'))
+    counts['occurrence_pairs'] = n
+    return res
+
+
 def run(ctx) -> dict:
     counts: dict[str, int] = {}
     from .c10_datatypes import r10_1, SPEC as C10SPEC
@@ -763,7 +872,7 @@ def run(ctx) -> dict:
     r4.title = 'JUDGEMENT-PURITY (R18.4 = R05.1 on the sequence-type judgement code)'
     results = [r18_1(ctx, counts), r18_2(ctx, counts), r3, r4, r18_6(ctx, counts),
                r18_7(ctx, counts), r18_8(ctx, counts),
-               r18_9(ctx, counts)]
+               r18_9(ctx, counts), r18_10(ctx, counts)]
     return {
         'results': results, 'counts': counts,
         'explanation':
